@@ -89,6 +89,8 @@ func form(b []byte, compressed bool) []byte {
 	return append([]byte(nil), b...)
 }
 
+var zeroChunkLens = []int{256, 4096, 65536, 262144}
+
 func genStore(rng *rand.Rand, uncompressed bool, local bool) (objs []object, ids []desync.ChunkID) {
 	n := 3 + rng.Intn(10)
 	for k := 0; k < n; k++ {
@@ -124,6 +126,14 @@ func genStore(rng *rand.Rand, uncompressed bool, local bool) (objs []object, ids
 		id := dsu.Sum(nil)
 		ids = append(ids, id)
 		objs = append(objs, object{key: objKey(id, !uncompressed), data: form(nil, !uncompressed), category: "own-valid", id: id, ownFmt: true, valid: true})
+	}
+	if rng.Intn(3) == 0 {
+		// a run of zeros of exactly the maximum chunk size (sparse images are full of them): readers make that chunk up
+		// in memory, it is a referenced chunk of the store like any other all the same
+		b := make([]byte, zeroChunkLens[rng.Intn(len(zeroChunkLens))])
+		id := dsu.Sum(b)
+		ids = append(ids, id)
+		objs = append(objs, object{key: objKey(id, !uncompressed), data: form(b, !uncompressed), category: "own-valid", id: id, ownFmt: true, valid: true})
 	}
 	// junk
 	pick := func() *desync.ChunkID { id := ids[rng.Intn(len(ids))]; return &id }
@@ -366,6 +376,12 @@ func run(c *harness.Ctx, i int) {
 			err = s.Prune(context.Background(), keep)
 		case "local-cli":
 			idx := desync.Index{Index: desync.FormatIndex{FeatureFlags: desync.CaFormatSHA512256, ChunkSizeMin: 64, ChunkSizeAvg: 128, ChunkSizeMax: 4096}}
+			for _, l := range zeroChunkLens {
+				// the index that references the all-zero chunk of l bytes has l as its maximum chunk size
+				if _, ok := keep[dsu.Sum(make([]byte, l))]; ok {
+					idx.Index.ChunkSizeMax = uint64(l)
+				}
+			}
 			var start uint64
 			var kk []string
 			for id := range keep {
